@@ -152,19 +152,24 @@ impl Recorder {
 
 pub type Rec = Arc<Mutex<Recorder>>;
 
-fn recording_function(name: &'static str, rec: Rec) -> Function<DefaultNumericTypes> {
+/// A user function registered under `name` with the sentinel behaviour `behaviour`.
+pub fn recording_function(
+    name: String,
+    behaviour: &'static str,
+    rec: Rec,
+) -> Function<DefaultNumericTypes> {
     Function::new(move |arg: &V| {
         {
             let mut r = rec.lock().unwrap();
             if r.enabled && r.closures_record {
                 if let Some(idx) =
-                    r.record(Ev::Call(name.to_string(), cv(arg)), FaultKind::CallError)
+                    r.record(Ev::Call(name.clone(), cv(arg)), FaultKind::CallError)
                 {
                     return Err(injected_error(idx));
                 }
             }
         }
-        Ok(sentinel(name, arg))
+        Ok(sentinel(behaviour, arg))
     })
 }
 
@@ -228,7 +233,10 @@ impl Setup {
         }
         for f in &self.fns {
             if let Some(name) = static_fn_name(f) {
-                ctx.set_function(name.to_string(), recording_function(name, rec.clone()))
+                ctx.set_function(
+                    name.to_string(),
+                    recording_function(name.to_string(), name, rec.clone()),
+                )
                     .expect("setup: set_function");
             }
         }
